@@ -390,6 +390,31 @@ fn misc(rng: &mut Rng, rep: &Report) {
             rep.count("distribution_lie_patterns", 1);
         }
     }
+    // a long-lived Mean: a value that writes another unit than promised is refused AND leaves the
+    // mean untouched (nothing wrongly scaled slips into the total)
+    for pattern in 0..32u32 {
+        rep.eval();
+        let mut mean: metrique_writer::value::Mean<u::Byte> = Default::default();
+        let (mut total, mut n) = (0.0f64, 0u64);
+        for i in 0..5 {
+            let lie = pattern >> i & 1 == 1;
+            let v = MaybeLying { lie, v: 100 + i as u64 };
+            let r = if i % 2 == 0 { mean.record_value(&v) } else { mean.try_extend([&v]) };
+            if !lie {
+                total += v.v as f64;
+                n += 1;
+            }
+            if r.is_err() != lie || mean.total() != total || mean.occurrences() != n {
+                rep.violation(
+                    "wrongly-scaled-instead-of-error",
+                    json!({"case": "Mean<Byte>: values promising Bytes recorded one by one, some of which write Kilobytes", "lying_positions_bitmask": pattern, "position": i,
+                           "this_value_lies": lie, "call_returned_error": r.is_err(), "mean_total": mean.total(), "mean_occurrences": mean.occurrences(), "expected_total": total, "expected_occurrences": n}),
+                );
+                return;
+            }
+        }
+        rep.count("mean_lie_patterns", 1);
+    }
     rep.distinct(Fnv::new().str("misc").finish());
 }
 
